@@ -158,6 +158,8 @@ def mk_fail(pid, kind, what, rel, line, text, fn):
 
 def run(pid, spec, tier):
     out = []
+    # the thorough tier widens the bounds of the labelled stand-ins (they stay bounded and are reported with their bound)
+    os.environ["VERIF_STANDIN_SCALE"] = "10" if tier == "thorough" else "1"
     for name in spec.get("extra", []):
         if name == "quota_frame_scan":
             out.append(quota_frame_scan(pid))
